@@ -44,7 +44,9 @@ DyC0  == << C0, 0 >>
 SampleIdx(j, Sub) == j \div Sub
 Frac(j, Sub)      == j % Sub
 InWindow(y, j, Sub) == j >= 0 /\ SampleIdx(j, Sub) < Len(y)
-\* Variant "linear" is the design; "swapped" (weights exchanged), "hold" (no interpolation) are wrong variants.
+\* Variant "linear" is the design; "swapped" (weights exchanged), "hold" (no interpolation) and "truncated" (the result is
+\* cast back to an integer sample type: exact at sample times, rounded toward zero in between) are wrong variants.
+TruncDiv(x, m) == IF x >= 0 THEN x \div m ELSE -((-x) \div m)
 Amp(y, j, Sub, outside, variant) ==
     IF ~InWindow(y, j, Sub) THEN << outside * Sub, Sub >>
     ELSE LET i  == SampleIdx(j, Sub)
@@ -53,6 +55,7 @@ Amp(y, j, Sub, outside, variant) ==
              y1 == y[IF i + 2 <= Len(y) THEN i + 2 ELSE Len(y)]      \* the code clips the upper neighbour to the last sample
          IN  CASE variant = "swapped" -> << r * y0 + (Sub - r) * y1, Sub >>
                [] variant = "hold"    -> << Sub * y0, Sub >>
+               [] variant = "truncated" -> << Sub * TruncDiv((Sub - r) * y0 + r * y1, Sub), Sub >>
                [] OTHER               -> << (Sub - r) * y0 + r * y1, Sub >>
 \* the property, stated on the samples alone
 AtSampleTimes(y, j, Sub, v) == (InWindow(y, j, Sub) /\ Frac(j, Sub) = 0) => REq(v, << y[SampleIdx(j, Sub) + 1], 1 >>)
